@@ -27,11 +27,13 @@ LastDot(n, i) == IF i <= 1 THEN 0 ELSE IF n[i] = 46 THEN i ELSE LastDot(n, i - 1
 Ext(n) == IF LastDot(n, Len(n)) = 0 THEN <<>> ELSE SubSeq(n, LastDot(n, Len(n)), Len(n))
 \* type listing: loose files whose extension is exactly ext, then archive members (load order, index order)
 \* whose extension matches ignoring case and whose name is not CI-equal to anything already listed
+\* for archive members the queried extension need not carry its leading dot ("txt" and ".txt" ask the same; the empty extension asks for names without one)
+WithDot(ext) == IF ext = <<>> \/ ext[1] = 46 THEN ext ELSE <<46>> \o ext
 RECURSIVE AddMembers(_, _, _)
 AddMembers(acc, ms, ext) ==
   IF ms = <<>> THEN acc
   ELSE LET m == Head(ms).name
-           take == CIEqual(Ext(m), ext) /\ ~\E i \in 1..Len(acc) : CIEqual(acc[i], m)
+               take == CIEqual(Ext(m), WithDot(ext)) /\ ~\E i \in 1..Len(acc) : CIEqual(acc[i], m)
        IN AddMembers(IF take THEN Append(acc, m) ELSE acc, Tail(ms), ext)
 RECURSIVE AddArchives(_, _, _)
 AddArchives(acc, as, ext) == IF as = <<>> THEN acc ELSE AddArchives(AddMembers(acc, Head(as).members, ext), Tail(as), ext)
